@@ -23,10 +23,11 @@ import (
 // Go values for the parameters of the function under contract, call the real
 // function from an in-package test injected with -overlay, and see whether
 // the real code misbehaves the way the obligation says.  Confirmation is
-// claimed only for obligation kinds whose failure is observable as a panic;
+// claimed only for obligation kinds whose failure is observable as a panic
+// (safety obligations, and preconditions of callees, which guard the callee's own safety obligations);
 // for the others the inputs are written to the replay file unconfirmed.
 
-var panicKinds = map[string]bool{"idx": true, "nil": true, "slice": true, "panic": true, "make": true, "shift": true, "assert": true, "cast": true, "div": true}
+var panicKinds = map[string]bool{"pre": true, "pre-recv": true, "idx": true, "nil": true, "slice": true, "panic": true, "make": true, "shift": true, "assert": true, "cast": true, "div": true}
 
 type sx struct {
 	atom string
